@@ -590,7 +590,7 @@ func Run(r *core.Run) {
 
 	// ---- design: TLC on the model -------------------------------------------
 	var wg sync.WaitGroup
-	designs := []string{"SourceMap.link.quick.cfg", "SourceMap.text.cfg", "SourceMap.shift.cfg"}
+	designs := []string{"SourceMap.link.quick.cfg", "SourceMap.text.quick.cfg", "SourceMap.shift.cfg"}
 	if r.Thorough() {
 		designs = []string{"SourceMap.link.c2m2.cfg", "SourceMap.link.c3m1.cfg", "SourceMap.link.c3m3l0.cfg",
 			"SourceMap.text.cfg", "SourceMap.shift.m3.cfg"}
@@ -601,8 +601,8 @@ func Run(r *core.Run) {
 	wg.Add(1)
 	go func() {
 		defer wg.Done()
-		core.Parallel(len(designs), 2, func(i int) {
-			tlcrun.MustHold(r, tlcrun.Options{Module: "SourceMap", Config: designs[i], Workers: 3, TimeoutSec: 2400, XssMB: 64})
+		core.Parallel(len(designs), 3, func(i int) {
+			tlcrun.MustHold(r, tlcrun.Options{Module: "SourceMap", Config: designs[i], Workers: 2, TimeoutSec: 3000, XssMB: 64})
 		})
 	}()
 	// the model-level counterexample (a CR LF pair split over two Advance calls: the
